@@ -23,7 +23,7 @@ from ..transports import (
 )
 
 PROP = "C11"
-RUNS = {"quick": 240000, "thorough": 2500000}
+RUNS = {"quick": 160000, "thorough": 2500000}
 BLOCK = {"quick": 1000, "thorough": 5000}
 SHRINK_LISTS = ["ops", "decisions", "items"]
 RULE = (
@@ -67,9 +67,9 @@ def generate(master, index, tier):
     bufsize = rng.choice(BUFSIZES)
     if level == 1:
         n = rng.choice((0, 1, 2, 5, 20, 60, 200, 600, 1500))
-        long_lived = index % 100 == 41  # a long-lived connection: > 64 KiB through one wrapper
+        long_lived = index % 400 == 41  # a long-lived connection: > 64 KiB through one wrapper
         if long_lived:
-            n = rng.choice((66000, 70000, 140000, 300000))
+            n = rng.choice((66000, 70000, 140000))
             bufsize = rng.choice((512, 4096, 4096, 8192))
         data = _stream_bytes(rng, n)
         ops = []
@@ -319,7 +319,7 @@ def _execute_l1(scn):
             if ok:
                 # faults stop; drain
                 _stop_faults(decider)
-                n = 64
+                n = 64 if len(data) < 20000 else 4096
                 guard = 0
                 while viol is None:
                     guard += 1
